@@ -479,6 +479,7 @@ int32_t
 qb_rb_chunk_commit(struct qb_ringbuffer_s * rb, size_t len)
 {
 	uint32_t old_write_pt;
+	uint32_t new_write_pt;
 
 	if (rb == NULL) {
 		return -EINVAL;
@@ -490,9 +491,23 @@ qb_rb_chunk_commit(struct qb_ringbuffer_s * rb, size_t len)
 	rb->shared_data[old_write_pt] = len;
 
 	/*
+	 * The slot behind this chunk is where the reader looks once it has
+	 * consumed it: payload left there by an earlier lap must not be
+	 * mistaken for the magic of a committed chunk.  That word is unused
+	 * unless the buffer is now full up to the oldest chunk, whose
+	 * (size) word it then is and which the reader clears itself.
+	 */
+	new_write_pt = qb_rb_chunk_step(rb, old_write_pt);
+	if ((new_write_pt + 1) % rb->shared_hdr->word_size !=
+	    rb->shared_hdr->read_pt) {
+		QB_RB_CHUNK_MAGIC_SET(rb, new_write_pt,
+				      QB_RB_CHUNK_MAGIC_DEAD);
+	}
+
+	/*
 	 * commit the new write pointer
 	 */
-	rb->shared_hdr->write_pt = qb_rb_chunk_step(rb, old_write_pt);
+	rb->shared_hdr->write_pt = new_write_pt;
 	QB_RB_CHUNK_MAGIC_SET(rb, old_write_pt, QB_RB_CHUNK_MAGIC);
 
 	DEBUG_PRINTF("commit [%zd] read: %u, write: %u -> %u (%u)\n",
